@@ -123,6 +123,15 @@ func SolveWithAbstraction(sc *Script, abs *Script, nGets int, timeoutS int, seed
 		}
 		bs = f
 	}
+	if sc.HasLambda {
+		var f []Backend
+		for _, b := range bs {
+			if strings.HasPrefix(b.Name, "z3") {
+				f = append(f, b)
+			}
+		}
+		bs = f
+	}
 	if len(bs) == 0 {
 		return nil, fmt.Errorf("no SMT solver found")
 	}
